@@ -30,8 +30,10 @@ import c10
 from pydrobert.speech import alias, compute, pre, post, util
 
 RATE = 8000
+# (every option spelled out with its documented default: written inline this is longer than a file name may be, 255 bytes)
 COMPUTER = {"name": "stft", "bank": {"name": "fbank", "num_filts": 5, "sampling_rate": RATE}, "frame_length_ms": 20, "frame_shift_ms": 10,
-            "include_energy": True}
+            "include_energy": True, "frame_style": None, "pad_to_nearest_power_of_two": True, "window_function": None, "use_log": True,
+            "use_power": False, "kaldi_shift": False}
 PRES = [[], ["preemph"], ["dither", {"name": "preemph", "coeff": 0.9}]]
 POSTS = [[], [{"name": "deltas", "num_deltas": 1}], [{"name": "stack", "num_vectors": 2}, {"name": "deltas", "num_deltas": 2}]]
 
@@ -209,7 +211,7 @@ COMPUTERS2 = [
     {"name": "stft", "bank": {"name": "gabor", "scaling_function": "mel", "num_filts": 6, "sampling_rate": RATE},
      "frame_length_ms": 25.125, "frame_shift_ms": 10},                      # odd frame length (201), padded DFT (256), complex wrapping bank
     {"name": "stft", "bank": {"name": "tonebank", "scaling_function": "bark", "num_filts": 4, "sampling_rate": RATE},
-     "frame_length_ms": 20, "frame_shift_ms": 7, "pad_to_nearest_power_of_two": False, "kaldi_shift": True, "frame_style": "centered"},
+     "frame_length_ms": 20, "frame_shift_ms": 7.125, "pad_to_nearest_power_of_two": False, "kaldi_shift": True, "frame_style": "centered"},  # even length (160), odd shift (57)
     {"name": "si", "bank": {"name": "gabor", "scaling_function": "mel", "num_filts": 3, "sampling_rate": RATE}, "frame_shift_ms": 10},
     {"name": "stft", "bank": {"name": "fbank", "num_filts": 4, "sampling_rate": RATE}, "frame_length_ms": 30, "frame_shift_ms": 10,
      "frame_style": "causal", "kaldi_shift": True},   # kaldi_shift is documented to matter only for centered frames
